@@ -179,3 +179,57 @@ def one_history(ns, tid, seed, want_real_update=True):
         except Exception:
             pass
     return events
+
+
+def recomputed_summary(ns, proj, sim):
+    out = []
+    for old, new in zip(sim.values_to_recompute, sim.recomputed_values):
+        owner = old.modeling_obj_container
+        news = dict(new.items()) if isinstance(new, dict) else {None: new}
+        twin_ok = getattr(old, "simulation_twin", None) is new and getattr(new, "baseline_twin", None) is old
+        slot0 = f"{owner.name}|{old.attr_name_in_mod_obj_container}|" + ("#" if isinstance(old, dict) else "-")
+        mins = [int(nv.value.index.min().timestamp() // 3600) for nv in news.values()
+                if isinstance(nv, ns.ExplainableHourlyQuantities)]
+        out.append({"slot": slot0, "baseline_tok": proj.token(old), "sim_tok": proj.token(new), "twin_ok": bool(twin_ok),
+                    "min_hour": min(mins) if mins else -1})
+    return out
+
+
+def probe_inputs(ns, tid0, seed, per_model=14):
+    """systematic part of C06: on one seeded system, a simulation of EVERY numeric input of every reachable object (one after
+    the other, each at an interior date at which all usage patterns are active); only the clauses on the recomputed
+    values are judged (twins, no hour before the date)"""
+    rng = random.Random(seed)
+    model = gen.random_model(rng)
+    try:
+        live = efx.build(ns, model)
+    except Exception:
+        return []
+    lo, hi, last_per_up = period(ns, live, model)
+    if lo is None or len(last_per_up) != len(efx.names_of(model, "UsagePattern")):
+        return []
+    firsts = [live[n].utc_hourly_usage_journey_starts.value.index.min() for n in efx.names_of(model, "UsagePattern")]
+    lo_all, hi_all = max(firsts), min(last_per_up)      # every usage pattern is active in [lo_all, hi_all]
+    if hi_all <= lo_all + timedelta(hours=1):
+        return []
+    proj = Projector(ns)
+    names = sorted(efx.reachable(model))
+    inputs = [(n, a) for n in names for a in model[n]["inp"]]
+    rng.shuffle(inputs)
+    events = []
+    for k, (n, a) in enumerate(inputs[:per_model]):
+        n_hours = int((hi_all - lo_all).total_seconds() // 3600)
+        date = (lo_all + timedelta(hours=rng.randint(1, max(1, n_hours)))).to_pydatetime()
+        mv = model[n]["inp"][a]
+        edit = ("input", n, a, [mv[0] * 2 + (1 if mv[0] == 0 else 0), mv[1]])
+        try:
+            change = efx.new_value_for(ns, model, live, edit)
+            sim = ns.ModelingUpdate([change], date)
+        except Exception:   # noqa: refused simulations are C05's subject
+            continue
+        events.append(dict(tid=tid0 + k, seq=0, ev="SimProbe", seed=seed, flavour=f"probe:{model[n]['cls']}.{a}",
+                           date_kind="interior", outcome="created", exc="none", expect_ok=True, hourly_input_changed=False,
+                           all_ups_active=True, date_hour=int(date.timestamp() // 3600),
+                           n_values_to_recompute=len(sim.values_to_recompute),
+                           recomputed=recomputed_summary(ns, proj, sim)))
+    return events
